@@ -117,3 +117,15 @@ static inline void install_death_cb(std::string *spec) {
   g_death_spec = spec;
   if (&__sanitizer_set_death_callback) __sanitizer_set_death_callback(death_cb);
 }
+
+// ---- address-space layout: fixed, so that two processes executing the same history see the same
+// addresses (an out-of-bounds read that picks up a pointer then reads the same value everywhere) ----
+#include <sys/personality.h>
+static inline void disable_aslr(char **argv) {
+  int cur = personality(0xffffffff);
+  if (cur == -1 || (cur & ADDR_NO_RANDOMIZE)) return;
+  if (getenv("VERIF_ASLR_KEEP")) return;
+  if (personality(cur | ADDR_NO_RANDOMIZE) == -1) return;
+  setenv("VERIF_ASLR_KEEP", "1", 1); // never loop
+  execv("/proc/self/exe", argv);
+}
